@@ -63,11 +63,25 @@ pub fn unhex(s: &str) -> Vec<u8> {
         .collect()
 }
 
-/// Run `f`, mapping a panic to `Err(())`. The panic hook is silenced once per process.
+thread_local! {
+    static IN_GUARD: std::cell::Cell<bool> = const { std::cell::Cell::new(false) };
+}
+
+/// Run `f`, mapping a panic to `Err(())`. Panics of the code under test are silent; a panic of the harness itself
+/// (outside `guarded`) is still reported on stderr.
 pub fn guarded<T>(f: impl FnOnce() -> T) -> Result<T, ()> {
     static ONCE: std::sync::Once = std::sync::Once::new();
-    ONCE.call_once(|| std::panic::set_hook(Box::new(|_| {})));
-    catch_unwind(AssertUnwindSafe(f)).map_err(|_| ())
+    ONCE.call_once(|| {
+        std::panic::set_hook(Box::new(|info| {
+            if !IN_GUARD.with(|g| g.get()) {
+                eprintln!("harness panic: {}", info);
+            }
+        }))
+    });
+    let prev = IN_GUARD.with(|g| g.replace(true));
+    let r = catch_unwind(AssertUnwindSafe(f)).map_err(|_| ());
+    IN_GUARD.with(|g| g.set(prev));
+    r
 }
 
 /// Command line shared by all suite binaries:
